@@ -184,28 +184,69 @@ func dataOf(ti []byte, spec string) []byte {
 	panic("bad spec " + spec)
 }
 
+// abortCase ends a case whose set-up already failed (and was reported).
+type abortCase struct{}
+
+func panicCause(p string) string {
+	switch {
+	case strings.Contains(p, "divide by zero"):
+		return "divide-by-zero"
+	case strings.Contains(p, "out of range"):
+		return "out-of-range"
+	case strings.Contains(p, "nil pointer"):
+		return "nil-deref"
+	}
+	return "other"
+}
+
+// safely: every call into the real code that is not individually guarded is still under
+// recover: a panic is an observation with the case as replay, never a dead harness.
+func safely(c *vhlib.Ctx, f func()) {
+	defer func() {
+		if r := recover(); r != nil {
+			if _, ok := r.(abortCase); ok {
+				return
+			}
+			c.Violate("panic:unguarded:"+panicCause(fmt.Sprint(r)), fmt.Sprint(r), c.Case())
+		}
+	}()
+	f()
+}
+
 func newWorld(c *vhlib.Ctx, spec string, seed uint64) *world {
 	info := metaline.Expand(spec)
 	h := sha1.Sum(info)
-	t, err := tor.ReadMagnet("", "magnet:?xt=urn:btih:"+hex.EncodeToString(h[:]))
-	if err != nil || t == nil {
-		panic("ReadMagnet failed on a well-formed magnet")
-	}
-	tor.VerifInit(t, 4096, seed)
-	w := &world{c: c, t: t, ti: info}
-	_ = h
-	for i := 0; i < 2; i++ {
-		w.addPeer(0)
-	}
-	for len(t.Event) > 0 { // the TorPeerExtended{size 0} of the setup
-		<-t.Event
-	}
-	var bi tor.BInfo
-	mc := "E"
-	if bencode.DecodeBytes(info, &bi) == nil {
-		mc = "B 0 " + metaline.BInfoTokens(&bi)
-	}
 	c.NewCase()
+	var w *world
+	mc := "E"
+	step := "ReadMagnet"
+	if p := vhlib.Recover(func() {
+		t, err := tor.ReadMagnet("", "magnet:?xt=urn:btih:"+hex.EncodeToString(h[:]))
+		if err != nil || t == nil {
+			panic("ReadMagnet refused a well-formed magnet")
+		}
+		step = "VerifInit"
+		tor.VerifInit(t, 4096, seed)
+		w = &world{c: c, t: t, ti: info}
+		step = "peer-setup"
+		for i := 0; i < 2; i++ {
+			w.addPeer(0)
+		}
+		for len(t.Event) > 0 { // the TorPeerExtended{size 0} of the setup
+			<-t.Event
+		}
+		step = "bencode.DecodeBytes"
+		var bi tor.BInfo
+		if bencode.DecodeBytes(info, &bi) == nil {
+			mc = "B 0 " + metaline.BInfoTokens(&bi)
+		}
+		step = "VerifInfoState"
+		w.snap()
+	}); p != "" {
+		c.Emit(fmt.Sprintf("new %s %s E", vhlib.Hex(h[:]), spec), "panic")
+		c.Violate("panic:setup:"+step+":"+panicCause(p), p, c.Case())
+		panic(abortCase{})
+	}
 	c.Emit(fmt.Sprintf("new %s %s %s", vhlib.Hex(h[:]), spec, mc), "new "+w.snap().digest())
 	return w
 }
@@ -1048,23 +1089,26 @@ func main() {
 	config.SetIdleRate(0)
 	c.Rep.Rule = "scripts over real info dictionaries of sizes {1,16383,16384,16385,40000,49152,...}: honest/forged/duplicated/re-ordered/wrong-size/wrong-index/wrong-length blocks, size votes, requests, direct calls and end-to-end peer messages; non-trivial = the operation changed the metadata state; distinct = distinct op lines"
 	if c.Replay != "" {
-		replay(c)
+		safely(c, func() { replay(c) })
 		return
 	}
 	for i := 0; i < c.N; i++ {
-		switch k := i % 10; {
-		case k < 6:
-			genRandom(c, c.R)
-		case k == 6:
-			genCleanRound(c, c.R)
-		case k == 7:
-			genTwoRounds(c, c.R)
-		case k == 8:
-			genPoisoned(c, c.R)
-		case i%20 == 9:
-			genPinned(c, c.R)
-		default:
-			genOutvoted(c, c.R)
-		}
+		i := i
+		safely(c, func() {
+			switch k := i % 10; {
+			case k < 6:
+				genRandom(c, c.R)
+			case k == 6:
+				genCleanRound(c, c.R)
+			case k == 7:
+				genTwoRounds(c, c.R)
+			case k == 8:
+				genPoisoned(c, c.R)
+			case i%20 == 9:
+				genPinned(c, c.R)
+			default:
+				genOutvoted(c, c.R)
+			}
+		})
 	}
 }
